@@ -72,7 +72,8 @@ RegMgr(m, bk, bt) ==       \* bptk.register_scenario_manager({m: {"model": base,
     /\ Log([op |-> "RegMgr", m |-> m, bk |-> bk, bt |-> bt])
 
 Register(m, sc, k, tab, rs) ==    \* bptk.register_scenarios({sc: {constants, points, runspecs}}, m): the base model is cloned
-    /\ "Register" \in Ops /\ mgr[m] # Null /\ scen[m][sc] = Null
+    /\ "Register" \in Ops /\ mgr[m] # Null
+    /\ (scen[m][sc] = Null \/ ("ReRegister" \in Ops /\ ~InSession(m, sc)))      \* a name registered again is a NEW scenario: nothing of the old one survives
     /\ LET k2 == IF k > 0 THEN k ELSE mgr[m].bk               \* base constants / points fill what the scenario does not list
            t2 == IF tab # "" THEN tab ELSE mgr[m].bt
        IN /\ scen' = [scen EXCEPT ![m][sc] = [k |-> k2, tab |-> t2, rs |-> rs]]
